@@ -69,7 +69,7 @@ InitRun(ev) ==
       fc == CallsOf(fpe)
   IN  [Fresh EXCEPT !.big = IsBig(p), !.dig = IF IsBig(p) THEN BigDigest(p) ELSE Fresh.dig, !.run = ev.run, !.mode = ev.mode, !.cthr = ev.cthr, !.hasprog = TRUE, !.p = p,
                     !.out = out, !.fcalls = fc, !.callbag = BagOfSeq(fc),
-                    !.lin = (ev.mode # "free"),
+                    !.lin = (ev.mode \in {"rand", "replay"}),
                     !.seqmode = IsSequential(FinalParams(p)),
                     !.matchRoots = IF p.term.k \in FindTerms
                                    THEN {RootOf(p, out[i].k) : i \in {j \in 1..Len(out) : Wanted(p, out[j])}}
